@@ -239,6 +239,35 @@ func checkC12(c *core.Ctx) {
 		return
 	}
 	c.Count(int64(len(lines)), nontrivial, int64(len(lines)))
+	// Strings holding bytes that are no Unicode text at all (ill-formed UTF-8: the lexer hands them through). The
+	// specification's alphabet is code points, so it has nothing to say about them; "byte for byte" is checked here
+	// directly: the values of the re-parsed document have the same bytes, and the text is a fixpoint.
+	for i, lit := range []string{"\"caf\xe9\"", "\"\xf0\x9f x\"", "\"\xed\xa0\x80\"", "\"a\\n\xff\xfe b\"", "\"\"\"blk \xe9\n  \xc3\"\"\"", "\"\x80\\u00e9\xbf\""} {
+		src := "query Q($v: String = " + lit + ") { f(a: " + lit + ", b: [" + lit + ", {k: " + lit + "}]) @d(s: " + lit + ") }"
+		for k := 0; k < 4; k++ {
+			o := queryFmtOpts[(i*4+k*5)%len(queryFmtOpts)]
+			r, parsed := queryRoundTrip(src, o)
+			if !parsed {
+				c.Internal("document with ill-formed UTF-8 in a string does not parse: %q", src)
+				break
+			}
+			what := ""
+			switch {
+			case r.Crash != "":
+				what = "formatter crashed: " + r.Crash
+			case !r.Reparsed:
+				what = "formatted text does not parse"
+			case gtListString(r.Tree) != gtListString(r.D1):
+				what = fmt.Sprintf("string bytes changed over format and parse: %s became %s", gtListString(r.Tree), gtListString(r.D1))
+			case r.T2 != r.T1:
+				what = "formatting the re-parsed document gives a different text (not a fixpoint)"
+			}
+			if what != "" {
+				c.Violation(fmt.Sprintf("%s: document %q formatted with %s as %q", what, src, o, r.T1), map[string]any{"what": what, "source_hex": fmt.Sprintf("%x", src), "options": o.String()})
+			}
+			c.AddExtraInt("ill_formed_utf8_round_trips", 1)
+		}
+	}
 	c.Logf("Printer_Trace: %d (document, options) round trips validated, %d disagreements", len(lines), len(bad))
 	for _, raw := range bad {
 		var b struct {
@@ -270,6 +299,12 @@ func handFormatDocs() []string {
 		"fragment F($a: [Int] = # c1\n [# c2\n 1, # c3\n [2]], $b: In = {# c4\n k: # c5\n {j: 1}}) on T { f }",
 		"# c0\nquery Q # c1\n ($a: Int) # c2\n @d # c3\n { # c4\n f # c5\n (# c6\n a: # c7\n [1], # c8\n b: {# c9\n k: 1}) # c10\n @e(# c11\n x: 1) # c12\n { g } # c13\n ... # c14\n on T # c15\n { h } # c16\n ...F # c17\n @s } # c18\n",
 		"{ a # c1\n b: # c2\n c # c3\n } # c4\n fragment F # c5\n on # c6\n T # c7\n { x }",
+	)
+	// lists of five and more items of mixed kinds, numbers first
+	out = append(out,
+		`query($x: Int) { f(ids: [1, 2, 3, 4, $x], m: [1.5, 2, 3, 4, "s", [5], {k: 6}, RED, null, true, $x]) @d(l: [0, 1, 2, 3, 4, 5, "six"]) }`,
+		`query($v: [Any] = [1, 2, 3, 4, "five", [6, 7, 8, 9, {k: [1, 2, 3, 4, E]}]]) { f(a: {k: [1, 2, 3, 4, 5, $v]}) }`,
+		`{ f(a: [-1, 0, 1, 2, 3, abc], b: [1e3, 2, 3, 4, 5, "1"], c: ["s", 1, 2, 3, 4, 5], d: [[1, 2, 3, 4, 5], [1, 2, 3, 4, x]]) }`,
 	)
 	for _, n := range []int{7, 9, 13, 20} {
 		var frags, ops, mixed strings.Builder
